@@ -58,7 +58,10 @@ def file_api_cases(ck, cases, nmax):
             seqs = [s for s in c['seqs']]
             names = gen.names_for(ck.rng, len(seqs))
             inp = os.path.join(tmp, 'in%d.fa' % idx)
-            open(inp, 'w').write(gen.fasta(names, c.get('written', seqs), ck.rng.choice([60, 60, 7, 100])))
+            text = gen.fasta(names, c.get('written', seqs), ck.rng.choice([60, 60, 7, 100]))
+            if idx % 4 == 1:        # a last line without newline is still a line
+                text = text.rstrip('\n'); ck.count('file api: input without final newline')
+            open(inp, 'w').write(text)
             for fmt in ('fasta', 'msf', 'clu'):
                 outp = os.path.join(tmp, 'out%d.%s' % (idx, fmt))
                 lines.append('runfile 0 %d %d %d %d %d %s %s %s' % (c['threads'], c['type'], c['pens'][0], c['pens'][1], c['pens'][2], fmt, outp, inp))
